@@ -67,13 +67,13 @@ func text(kind string, v any) string {
 	case "bool":
 		return strconv.FormatBool(v.(bool))
 	case "int":
-		return strconv.Itoa(v.(int))
+		return spellInt(int64(v.(int)))
 	case "int64":
-		return strconv.FormatInt(v.(int64), 10)
+		return spellInt(v.(int64))
 	case "uint":
-		return strconv.FormatUint(uint64(v.(uint)), 10)
+		return spellUint(uint64(v.(uint)))
 	case "uint64":
-		return strconv.FormatUint(v.(uint64), 10)
+		return spellUint(v.(uint64))
 	case "string":
 		return v.(string)
 	case "float64":
@@ -84,6 +84,37 @@ func text(kind string, v any) string {
 		return base64.StdEncoding.EncodeToString(v.([]byte))
 	}
 	panic("kind")
+}
+
+// spellInt writes an integer the way a person may write it in a tag, a variable or on the command line: integer texts
+// are read like Go literals (as the flag package reads them), so 16 may be spelled 16, 0x10, 0o20, 020 or 0b10000. Which
+// spelling a value gets depends on the value alone.
+func spellInt(v int64) string {
+	if v < 0 {
+		if v == math.MinInt64 {
+			return "-0x8000000000000000"
+		}
+		return "-" + spellUint(uint64(-v))
+	}
+	return spellUint(uint64(v))
+}
+
+func spellUint(v uint64) string {
+	switch v % 7 {
+	case 1:
+		return "0x" + strconv.FormatUint(v, 16)
+	case 2:
+		return "0o" + strconv.FormatUint(v, 8)
+	case 3:
+		return "0" + strconv.FormatUint(v, 8)
+	case 4:
+		return "0b" + strconv.FormatUint(v, 2)
+	case 5:
+		if d := strconv.FormatUint(v, 10); len(d) > 3 {
+			return d[:len(d)-3] + "_" + d[len(d)-3:]
+		}
+	}
+	return strconv.FormatUint(v, 10)
 }
 
 func jsonValue(kind string, v any) any {
